@@ -223,10 +223,19 @@ void call_pubsub_cb(m_mod_t *mod, m_queue_t *evts) {
         fetch_ms(&mod->stats.last_seen, NULL);
         
         mod->ctx->curr_mod = prev_mod;
+
+        /*
+         * Destroy events while the module is still kept alive:
+         * their sources hold a (not ref counted) pointer to the module,
+         * that may have been deregistered by the callback.
+         */
+        m_queue_free(&evts);
     });
 end:
-    /* Destroy events */
-    m_queue_free(&evts);
+    /* Destroy events (when no callback was called) */
+    if (evts) {
+        m_queue_free(&evts);
+    }
 }
 
 /** Public API **/
